@@ -90,6 +90,14 @@ class BufferedStream(object):
 
     def _readStream(self, bytes):
         data = self.stream.read(bytes)
+        # A short read is not the end of the stream: BOM detection, the meta
+        # prescan and seek() rely on getting the requested number of bytes
+        # unless the stream has ended
+        while data and len(data) < bytes:
+            more = self.stream.read(bytes - len(data))
+            if not more:
+                break
+            data += more
         self.buffer.append(data)
         self.position[0] += 1
         self.position[1] = len(data)
